@@ -191,7 +191,7 @@ func findLoops(fn *ssa.Function) []*loopInfo {
 
 func (e *Engine) newState(u *Unit) *State {
 	st := &State{e: e, u: u, declared: map[string]bool{}, heap: &HeapView{vers: map[string]*Term{}}, pre: &HeapView{vers: map[string]*Term{}},
-		labels: map[string]*HeapView{}, nver: map[string]int{}, opened: map[*ssa.BasicBlock]bool{}, strlits: map[string]*Term{}, ghostObj: map[string]any{}}
+		labels: map[string]*HeapView{}, nver: map[string]int{}, opened: map[*ssa.BasicBlock]bool{}, loopEntry: map[*ssa.BasicBlock]*HeapView{}, strlits: map[string]*Term{}, ghostObj: map[string]any{}}
 	st.allocB = st.declare("A0", SInt)
 	st.assume(Gt(st.allocB, IntLit(0)))
 	return st
@@ -572,6 +572,7 @@ func (st *State) execBlock(fr *Frame, b *ssa.BasicBlock, prev *ssa.BasicBlock) {
 			return
 		}
 		st.bindPhis(fr, b, prev)
+		st.loopEntry[b] = st.snapshot()
 		st.checkInvariant(fr, li, "entry")
 		st.opened[b] = true
 		st.havocLoop(fr, li)
@@ -849,6 +850,24 @@ func (st *State) loopEnv(fr *Frame, li *loopInfo) *Env {
 				env.visited = it
 			} else if ok && it.IsStr {
 				env.vars["strpos"] = envVar{Const(it.Pos, SInt), tInt}
+			}
+		}
+	}
+	env.entry = st.loopEntry[li.head]
+	if env.visited == nil {
+		// a loop nested in a map-range loop: visited() talks about the innermost enclosing map range
+		var best *loopInfo
+		for _, ol := range st.loopsFor(fr) {
+			if ol == li || !ol.body[li.head] || (best != nil && len(ol.body) >= len(best.body)) {
+				continue
+			}
+			for _, in := range ol.head.Instrs {
+				if nx, ok := in.(*ssa.Next); ok {
+					if it, ok := fr.vals[nx.Iter].(*MapIterV); ok && !it.IsStr {
+						env.visited = it
+						best = ol
+					}
+				}
 			}
 		}
 	}
